@@ -14,7 +14,7 @@ import CifModel.Lemmas.ParserDefect
 -/
 namespace CifModel
 open CifModel.Model CifModel.Model.Lexer CifModel.Model.Parser CifModel.Spec.Recovery CifModel.Spec.Grammar
-open CifModel.Gen.ErrCodes (CIF_MISSING_VALUE CIF_UNEXPECTED_VALUE CIF_DUP_ITEMNAME CIF_EMPTY_LOOP CIF_NO_BLOCK_HEADER)
+open CifModel.Gen.ErrCodes (CIF_MISSING_VALUE CIF_UNEXPECTED_VALUE CIF_DUP_ITEMNAME CIF_EMPTY_LOOP CIF_NO_BLOCK_HEADER CIF_PARTIAL_PACKET)
 
 /-- **C12_clean** — a document in which the accept-all parse finds no defect triggers no callback under any policy and is
     read identically (= C01 for the callback side) -/
@@ -137,6 +137,59 @@ theorem C12_empty_loop (o : Opts) {path : Path} {put : Container → Cif} {code 
               cif := put (.mk code fs (denoteItems o.dia o.normKey post (denoteItems o.dia o.normKey pre ls ++ [mkLoop ns []]))) }
       ∧ r.code = CIF_EMPTY_LOOP ∧ Feeds o s' rest := by
   apply empty_loop_run <;> assumption
+
+/-- **C12_partial_packet** — a loop (valid, new, pairwise distinct names) with complete packets `ps` and a short last packet `pv`
+    (at least one value, fewer than the header has names): CIF_PARTIAL_PACKET, the packet is filled out with unknown values, the
+    complete packets are stored as they are — the content is that of the loop `ps ++ [pv ++ unknowns]` -/
+theorem C12_partial_packet (o : Opts) {path : Path} {put : Container → Cif} {code : Str} (hv : View o path put code)
+    (pre post : List Item) (ns : List Str) (ps : List (List Val)) (pv : List Val) (seen seen2 : List Str) (rest : List TokSpec) (s : PS)
+    (fuel : Nat) (w : W) (fs : List Container) (ls : List Loop) (isBlock : Bool) (hcif : w.cif = put (.mk code fs ls))
+    (hpre : wfItems o pre seen = true) (hseen : ∀ k ∈ normNames o ls, k ∈ seen)
+    (hwf : ∀ n ∈ ns, wfName n = true) (hfresh : ∀ n ∈ ns, o.norm n ∉ normNames o (denoteItems o.dia o.normKey pre ls))
+    (hnd : (ns.map o.norm).Nodup) (hlen : ∀ p ∈ ps, p.length = ns.length) (hwv : ∀ p ∈ ps, wfVals o p = true)
+    (hpv : pv ≠ []) (hpl : pv.length < ns.length) (hwpv : wfVals o pv = true)
+    (hpost : wfItems o post seen2 = true)
+    (hseen2 : ∀ k ∈ normNames o (denoteItems o.dia o.normKey
+        [.loop ns (ps ++ [pv ++ List.replicate (ns.length - pv.length) Val.unk])] (denoteItems o.dia o.normKey pre ls)), k ∈ seen2)
+    (hfuel : szItems pre + szItems post + (ns.length + szPackets ps + szVals pv + 2) + 1 ≤ fuel)
+    (hnext : ∃ ty tx ts, itemsToks post ++ rest = (ty, tx) :: ts ∧ isTerminator ty = true)
+    (hrest : lastIsLoop post = true → ∃ ty tx ts, rest = (ty, tx) :: ts ∧ isTerminator ty = true)
+    (hF : Feeds o s (itemsToks pre ++ (((.loopKw, []) :: (ns.map (fun n => (TokType.name, n)) ++ (packetsToks ps ++ valsToks pv)))
+      ++ (itemsToks post ++ rest)))) :
+    ∃ s' r, elemsLoop o (fuel + post.length + 1 + pre.length) s (some path) isBlock acceptAll w
+        = elemsLoop o fuel s' (some path) isBlock acceptAll
+            { log := r :: w.log, cif := put (.mk code fs (denoteItems o.dia o.normKey
+                (pre ++ [.loop ns (ps ++ [pv ++ List.replicate (ns.length - pv.length) Val.unk])] ++ post) ls)) }
+      ∧ r.code = CIF_PARTIAL_PACKET ∧ Feeds o s' rest := by
+  apply partial_packet_run <;> assumption
+
+/-- **C12_dup_header_name** — a loop header `ns₁ ++ [n'] ++ ns₂` in which `n'` repeats, in ANY spelling (normalised comparison), a
+    name already defined in the container or one of `ns₁`: CIF_DUP_ITEMNAME, the loop is created with the names `ns₁ ++ ns₂` and every
+    packet loses the value of that column (`eraseIdx ns₁.length`) -/
+theorem C12_dup_header_name (o : Opts) {path : Path} {put : Container → Cif} {code : Str} (hv : View o path put code)
+    (pre post : List Item) (ns1 ns2 : List Str) (n' : Str) (p0 : List Val) (ps : List (List Val)) (seen seen2 : List Str)
+    (rest : List TokSpec) (s : PS) (fuel : Nat) (w : W) (fs : List Container) (ls : List Loop) (isBlock : Bool)
+    (hcif : w.cif = put (.mk code fs ls)) (hpre : wfItems o pre seen = true) (hseen : ∀ k ∈ normNames o ls, k ∈ seen)
+    (hwf : ∀ n ∈ ns1 ++ ns2, wfName n = true)
+    (hfresh : ∀ n ∈ ns1 ++ ns2, o.norm n ∉ normNames o (denoteItems o.dia o.normKey pre ls))
+    (hnd : ((ns1 ++ ns2).map o.norm).Nodup) (hne : ns1 ++ ns2 ≠ []) (hname : wfName n' = true)
+    (hdup : o.norm n' ∈ normNames o (denoteItems o.dia o.normKey pre ls) ∨ ∃ m ∈ ns1, o.norm m = o.norm n')
+    (hlen : ∀ p ∈ p0 :: ps, p.length = ns1.length + 1 + ns2.length) (hwv : ∀ p ∈ p0 :: ps, wfVals o p = true)
+    (hpost : wfItems o post seen2 = true)
+    (hseen2 : ∀ k ∈ normNames o (denoteItems o.dia o.normKey pre ls ++ [mkLoop (ns1 ++ ns2)
+        ((p0 :: ps).map (fun p => (denoteVals o.dia o.normKey p).eraseIdx ns1.length))]), k ∈ seen2)
+    (hfuel : szItems pre + szItems post + (ns1.length + ns2.length + szPackets (p0 :: ps) + 3) + 1 ≤ fuel)
+    (hnext : ∃ ty tx ts, itemsToks post ++ rest = (ty, tx) :: ts ∧ isTerminator ty = true)
+    (hrest : lastIsLoop post = true → ∃ ty tx ts, rest = (ty, tx) :: ts ∧ isTerminator ty = true)
+    (hF : Feeds o s (itemsToks pre ++ (((.loopKw, []) :: (ns1.map (fun n => (TokType.name, n)) ++ ((.name, n') ::
+      (ns2.map (fun n => (TokType.name, n)) ++ packetsToks (p0 :: ps))))) ++ (itemsToks post ++ rest)))) :
+    ∃ s' r, elemsLoop o (fuel + post.length + 1 + pre.length) s (some path) isBlock acceptAll w
+        = elemsLoop o fuel s' (some path) isBlock acceptAll
+            { log := r :: w.log, cif := put (.mk code fs (denoteItems o.dia o.normKey post
+                (denoteItems o.dia o.normKey pre ls ++ [mkLoop (ns1 ++ ns2)
+                  ((p0 :: ps).map (fun p => (denoteVals o.dia o.normKey p).eraseIdx ns1.length))]))) }
+      ∧ r.code = CIF_DUP_ITEMNAME ∧ Feeds o s' rest := by
+  apply dup_header_run <;> assumption
 
 /-- **C12_no_block_header** — a whole document whose first elements `e :: es` (items, loops, save frames: any well-formed element
     list) stand BEFORE the first data block header, followed by any well-formed data blocks `bs`: under accept-all parse_cif returns
